@@ -6,7 +6,7 @@ from ..linear import linear, relation, fmt
 from .common import strip_casts, short, comparison, FLIP
 
 UNITS = ['sdk/src/metrics/aggregation/histogram_aggregation.cc', 'sdk/src/metrics/sync_instruments.cc',
-         'sdk/src/metrics/state/temporal_metric_storage.cc', 'sdk/src/metrics/state/sync_metric_storage.cc']
+         'sdk/src/metrics/state/temporal_metric_storage.cc', 'sdk/src/metrics/state/sync_metric_storage.cc', 'sdk/src/metrics/state/filtered_ordered_attribute_map.cc']
 DRIVERS = ['metrics_headers.cc']
 CANARIES = ['c07_canary.cc']
 
@@ -376,6 +376,7 @@ def run(ck, prog):
     ck.doc('C07.R5', 'the aggregation config reaches every CreateAggregation call of a storage', 3)
     ck.doc('C07.R6', 'histogram instruments drop a value only behind value < 0 / missing storage', 4)
     ck.doc('C06.R1', '(shared rule, see C06) the storage aggregates into the looked-up histogram while holding the table lock', 4)
+    ck.doc('C08.R2', '(shared rule, see C08) one point per attribute set: every constructor / mutation of the series key ends in UpdateHash()', 5)
     with ck.canary('C07.R1'):
         rule_r1(ck, prog, 'canary::c07::BadHistogram')
     with ck.canary('C07.R3'):
@@ -387,6 +388,7 @@ def run(ck, prog):
     rule_r4(ck, prog)
     rule_r5(ck, prog)
     rule_r6(ck, prog)
-    from . import c06
+    from . import c06, c08
     c06.rule_r1_sync(ck, prog)
+    c08.rule_r2(ck, prog)
     return {}
